@@ -277,7 +277,9 @@ Section Steps.
         destruct Hx as [<-|[]]. apply metadata_labels_in.
   Qed.
 
-  Definition no_custom_fields (d : pdirs) : Prop := Forall (fun e => Labels.ld_fields e = []) (pd_labels d).
+  (* the directives whose reach the builtin tables do not bound: custom labels[].fields and patches: *)
+  Definition no_custom_fields (d : pdirs) : Prop :=
+    Forall (fun e => Labels.ld_fields e = []) (pd_labels d) /\ pd_patches d = [].
 
   Lemma label_transformers_incl d lts :
     no_custom_fields d ->
@@ -291,7 +293,7 @@ Section Steps.
       Forall (fun pf : pairs * list fieldspec => incl (snd pf) frame_fs) l0).
     { intros l0 H. destruct (mapM _ (pd_labels d)) as [l| | |] eqn:E; cbn [bind] in H; try discriminate. inv H.
       apply Forall_app. split; [|constructor; [exact common_labels_incl|constructor]].
-      apply mapM_Forall2P in E. unfold no_custom_fields in Hn.
+      apply mapM_Forall2P in E. destruct Hn as [Hn _].
       clear -E Hn. induction E as [|e pf te tl He _ IH]; [constructor|].
       inversion Hn; subst. constructor; [|auto].
       destruct (Labels.label_fs LabelsDefaults.default_tc e) as [fss| | |] eqn:EF; cbn [bind] in He; try discriminate.
@@ -451,7 +453,8 @@ Section Transformers.
   Lemma run_kind_keeps k d m m' :
     no_custom_fields d -> pd_images d = [] -> Forall has_kind m -> run_kind nonstr k d m = Ok m' -> Forall2 keeps m m'.
   Proof.
-    intros Hn Hi Hk. unfold run_kind. rewrite Hi.
+    intros Hn Hi Hk. unfold run_kind. rewrite Hi. rewrite (proj2 Hn).
+    destruct (String.eqb k "PatchTransformer"); [intros H; inv H; apply Forall2_keeps_refl|].
     destruct (String.eqb k "NamespaceTransformer"); [apply namespace_transform_keeps|].
     destruct (String.eqb k "PrefixTransformer"); [apply prefix_transform_keeps|].
     destruct (String.eqb k "SuffixTransformer"); [apply suffix_transform_keeps|].
@@ -911,6 +914,6 @@ Example tree_ok_example :
   tree_ok (PDir "top" (mkPDirs "ns" "p-" "" [Labels.mkLD [("a", "b")] true false []] [("c", "d")] [] [] [])
              [PDir "base" no_dirs [PFile [Map [("kind", Scalar TStr SPlain "ConfigMap")]]]]).
 Proof.
-  constructor; [repeat constructor|reflexivity|split; constructor|]. constructor; [|constructor].
-  constructor; [constructor|reflexivity|split; constructor|]. constructor; [|constructor]. constructor. constructor; [cbn; discriminate|constructor].
+  constructor; [split; [repeat constructor|reflexivity]|reflexivity|split; constructor|]. constructor; [|constructor].
+  constructor; [split; [constructor|reflexivity]|reflexivity|split; constructor|]. constructor; [|constructor]. constructor. constructor; [cbn; discriminate|constructor].
 Qed.
